@@ -348,12 +348,18 @@ func (fr *frame) load(p *Value) Value {
 	if p == nil {
 		fr.runtimePanic("invalid memory address or nil pointer dereference")
 	}
+	if r := fr.g.p.race; r != nil && fr.g.w.initDepth == 0 {
+		r.accessDeep(fr.g, p, false, fr.fn.String())
+	}
 	return copyVal(*p)
 }
 
 func (fr *frame) store(p *Value, v Value) {
 	if p == nil {
 		fr.runtimePanic("invalid memory address or nil pointer dereference")
+	}
+	if r := fr.g.p.race; r != nil && fr.g.w.initDepth == 0 {
+		r.accessDeep(fr.g, p, true, fr.fn.String())
 	}
 	*p = copyVal(v)
 }
